@@ -9,7 +9,7 @@
 From Coq Require Import ZArith List Bool Lia Permutation.
 From MV Require Import Ast Eval Scalar Machine Model Policy.
 From MV.Proofs Require Import Arith Logic Prim View OpsLocal Guards Grow CapHistory Drops DrainIt Core Refine Clone Append SplitOff Extend CloneSlice RetainSpec RetainAbs History DrainAbs Resize SourceSpecs.
-From MV Require Import EquivDefs Prims EquivTac EquivElem EquivPop EquivRemove EquivInsert EquivSwapRemove.
+From MV Require Import EquivDefs Prims EquivTac EquivElem EquivPop EquivRemove EquivInsert EquivSwapRemove EquivExtend.
 From MV.Gen Require Import AstGen.
 Close Scope string_scope.
 Import ListNotations.
@@ -446,3 +446,27 @@ Print Assumptions C01_the_source_of_truncate_keeps_the_prefix.
 Print Assumptions C01_the_source_of_remove_deletes_at_the_index.
 Print Assumptions C01_the_source_of_swap_remove.
 Print Assumptions C01_the_source_of_insert.
+
+(* END TO END for extend(iter): `for x in iter { self.push(x) }` as the translator renders a `for` loop
+   (hidden iterator, flag, statement-level `if` on `next`), the iterator being ANY script of the world:
+   tie (EquivExtend.v, induction over the machine's fuel) and theorem composed *)
+Theorem C01_the_source_of_extend_any_iterator :
+  forall cfg ncap, cfg_ok cfg -> policy_ok ncap -> needs_drop cfg = true ->
+  forall s v l sc F,
+  vabs cfg s v l -> (S (List.length sc) <= F)%nat ->
+  let '(n, p) := yields sc in
+  match run_extend cfg ncap (FUEL + F) v sc s with
+  | (Norm _, s') =>
+      p = false /\ vabs cfg s' v (l ++ zseq (next_elem s) n) /\ next_elem s' = next_elem s + Z.of_nat n /\
+      (forall e, e < next_elem s -> ledger s' e = ledger s e)
+  | (Panic, s') =>
+      exists k, (k <= n)%nat /\ vabs cfg s' v (l ++ zseq (next_elem s) k) /\
+                (forall e, e < next_elem s -> ledger s' e = ledger s e) /\
+                next_elem s <= next_elem s' /\
+                (forall e, next_elem s <= e < next_elem s' ->
+                           In e (zseq (next_elem s) k) \/ ledger s' e = Dropped)
+  | (Fail FAbort, _) | (Fail (FAllocAbort _ _), _) => True
+  | _ => False
+  end.
+Proof. exact extend_source. Qed.
+Print Assumptions C01_the_source_of_extend_any_iterator.
